@@ -63,16 +63,19 @@ def xor_facts(eng, X, chain):
         j = x["j"].lin
         base = di - j
         kind = None
+        same_buf = False
         if eng.ent(st, c_eq(base, Lin.const(0))):
             kind = "first"
         else:
             for c in chain:
                 if eng.ent(st, c_eq(base, c["item"].lin.scale(16))):
                     kind = "chain"
+                    if c["buf"] == dest:
+                        same_buf = True
         lo, hi = eng.bounds(st, j)
         lastmd5 = [e for e in st.events() if e[0] == "md5"]
         out.append({"kind": kind, "dest": dest, "aligned": si == j, "j": (lo, hi), "order": x["order"], "lid": x["lid"], "done": x["done"],
-                    "digest_is_latest": bool(lastmd5) and lastmd5[-1][1] == dig, "base": repr(base)})
+                    "digest_is_latest": bool(lastmd5) and lastmd5[-1][1] == dig, "base": repr(base), "same_buf": same_buf})
     return out
 
 
@@ -126,10 +129,9 @@ def run_config(chk, config):
         else:
             probs.append("no first-block / chain loop found")
         # the key block and the XORed block live in the same buffer
-        for c in chain:
-            for x in xs:
-                if x["kind"] == "chain" and x["dest"] != c["buf"]:
-                    probs.append("key block is read from another buffer than the one being XORed")
+        for x in xs:
+            if x["kind"] == "chain" and not x["same_buf"]:
+                probs.append("key block is read from another buffer than the one being XORed")
         return sorted(set(probs))
     ph = dep("hide", hc, hx, False)
     chk.oblig(not ph, "dependence | hide", "hide: the chain key is not the previous CIPHERTEXT block: %s" % ph,
@@ -140,38 +142,13 @@ def run_config(chk, config):
               {"rule": "descending walk: block i-1 has not been XORed yet when it keys block i; block 0 last", "problems": pr},
               {"obligation": "reveal: key block i-1 is in state 'original' (descending walk, block 0 last)"})
     # plaintext shape at the first MD5 of hide
-    shape_ok = bool(H.md5s)
-    why = "no MD5 in hide"
-    n_sh = 0
+    from hiding import plaintext_facts
     dests = set(x["dest"] for x in hx)
-    for st, did, d in H.md5s:
-        nk = norm_key(engh, d)
-        if not (nk and nk[0][0] == "type16"):
-            continue
-        for cell in dests:
-            v = st.cells.get(cell)
-            if not isinstance(v, VVec) or v.segs is None:
-                shape_ok, why = False, "plaintext buffer content unknown at the first key"
-                continue
-            n_sh += 1
-            segs = v.segs
-            q, r = engh.divmod_const(st, v.len, 16)
-            if not engh.ent(st, c_eq(r, Lin.const(0))) or not engh.ent(st, c_le(Lin.const(16), v.len)):
-                shape_ok, why = False, "plaintext length %r is not proven a positive multiple of 16" % (v.len,)
-            if not (segs[0][1][0] == "be" and segs[0][1][2] == 2):
-                shape_ok, why = False, "plaintext does not start with the 16-bit original length"
-            tail = [s for s in segs if s[1][0] in ("sym", "arr")]
-            names = [s[1][1] for s in segs]
-            if "length_padding" not in [s[1][1] for s in segs if s[1][0] == "sym"]:
-                shape_ok, why = False, "length padding missing from the plaintext"
-            lp_i = [i for i, s in enumerate(segs) if s[1][0] == "sym" and s[1][1] == "length_padding"]
-            ap = [(i, s) for i, s in enumerate(segs) if s[1][0] == "arr" and "alignment_padding" in str(s[1][1])]
-            if lp_i and ap and not (ap[0][0] == lp_i[0] + 1 and ap[0][0] == len(segs) - 1):
-                shape_ok, why = False, "padding order is not length padding then alignment padding at the end"
-            for i, s in ap:
-                lo, hi = engh.bounds(st, s[0])
-                if not (lo is not None and lo >= 0 and hi is not None and hi <= 15):
-                    shape_ok, why = False, "alignment padding length %r not proven within 0..15 (bounds %s..%s)" % (s[0], lo, hi)
+    pf = plaintext_facts(engh, H, dests)
+    n_sh = len(pf)
+    allp = [p for f in pf for p in f["problems"] if "original-length" not in p]
+    shape_ok = not allp
+    why = "; ".join(sorted(set(allp))[:2]) or "no plaintext buffer found at the first key"
     chk.oblig(shape_ok and n_sh >= 39, "plaintext | hide", "hide plaintext shape: %s" % why,
               {"rule": "len16 | payload | length padding | alignment prefix (0..15), total multiple of 16"},
               {"obligation": "hide: plaintext = len16|value|lp|ap[..p], p in 0..15, |plaintext| = 16n >= 16", "paths": n_sh})
